@@ -33,8 +33,16 @@ class ModuleRef:
         if q in ex.reg.types:
             return TypeRef(q)
         if q in ex.reg.constants:
-            return ex.reg.constants[q]
+            return _constant(ex, q)
         return FnRef(q)
+
+
+def _constant(ex, q):
+    if q == "numpoly.ndpoly.KEY_OFFSET":
+        # read from the class body of the tree under verification on every run (never a remembered number)
+        from .codecmodel import key_offset_of
+        return key_offset_of(ex.mod.repo)
+    return ex.reg.constants[q]
 
 
 class FnRef:
@@ -73,7 +81,7 @@ class TypeRef:
     def sx_getattr(self, ex, attr, node):
         q = f"{self.name}.{attr}"
         if q in ex.reg.constants:
-            return ex.reg.constants[q]
+            return _constant(ex, q)
         return FnRef(q)
 
 
